@@ -254,6 +254,32 @@ fn run(case: &Case, out: &mut Outcome) {
             break;
         }
     }
+    // the proof-only check of the public shred API: every shred of every slice (not only slice 0)
+    // carries a path that verifies under its slice root at its index in the slice; the offered
+    // (possibly altered) shred verifies under the genuine root iff payload, index and path are
+    // those of a genuine shred of this slice
+    {
+        let g = genuine[which].as_shred();
+        let root = genuine[which].slice_root().clone();
+        out.checks += 1;
+        if !g.verify_path_only(&root) {
+            out.violate("C12/genuine-path-refused", format!("slot {} slice {} shred {which}: Shred::verify_path_only rejects the leader's own shred", case.slot, case.slice));
+        }
+        if let Ok(m) = parts.to_shred() {
+            let same_as_genuine = parts.shred_index < 64 && {
+                let p = &all_parts[parts.shred_index as usize];
+                p.data == parts.data && p.proof == parts.proof
+            };
+            out.checks += 1;
+            let ok = m.verify_path_only(&root);
+            if ok && !same_as_genuine {
+                out.violate("C12/altered-path-accepted", format!("muts {:?}: verify_path_only accepts payload/index/path that are not the leader's", case.muts));
+            }
+            if !ok && same_as_genuine {
+                out.violate("C12/genuine-path-refused", format!("muts {:?}: payload, index and path are genuine but verify_path_only rejects", case.muts));
+            }
+        }
+    }
     if let Ok(shred) = parts.to_shred() {
         out.nontrivial = !case.muts.is_empty();
         let key = if case.other_key { &other_pk } else { &pk };
